@@ -26,7 +26,29 @@ Two families of cases:
       `sequence-query`, roman numerals ...);
     - further lazily produced sequences: an object with `__getitem__` + a forcing `__len__`
       (ZTUtils.Lazy / result-set style), an object with `__getitem__` only, `map` objects;
-    - compiled templates shared between cases (same source rendered again with other data).
+    - compiled templates shared between cases (same source rendered again with other data);
+    - element VALUES: the property counts pulls, it says nothing about what the elements are, so a
+      lazily produced sequence may yield any Python value at any position.  "Holes": at a set of
+      positions (every position / single positions / every m-th / a prefix / a tail) the producer
+      yields a value that is falsy, looks like an end marker or is otherwise easy to mistake for "no
+      element": None, 0, False, '', 0.0, (), [], {}, b'', -1, nan, the StopIteration class, StopIteration
+      / IndexError / KeyError instances, NotImplemented, Ellipsis, an object equal to everything, an
+      object without truth value (numpy style), a false object, an object of length 0 -- bare or as
+      the value of a (key, value) pair; plus str elements; bounded producers that end with
+      StopIteration(value) or a subclass of StopIteration.  Pull bound, pull count of the model,
+      window and displayed elements are those of the same case with ordinary elements; the element
+      shown at index k must be the very object produced k-th.
+  Two more families (oracle: plain Python reference; the per-loop pull counts are also compared
+  with the model):
+    - access histories on the lazy subscription wrapper itself (`sequence_ensure_subscription` of
+      every lazily produced kind, `SequenceFromIter`): random `seq[i]` / `len(seq)` sequences over
+      producers with holes and every way of ending (StopIteration, StopIteration(value), a subclass,
+      generator return): `seq[i]` is the i-th produced object or IndexError, and afterwards exactly
+      max(already pulled, min(i + 1, n)) elements are pulled; len pulls the rest;
+    - several loops in one rendering: two batched loops one after the other over two lazy
+      sequences, a batched loop nested in a batched loop over a fresh lazy sequence per outer
+      element, and a batched loop nested in a batched loop over the SAME lazy sequence (pulled <=
+      the larger of the two bounds): every sequence obeys its own window's bound.
   Requests the property excepts (reverse, true reverse_expr, sort, sort_expr, sequence-length,
   next-batches, statistics) are generated too, on bounded iterators only, and held to the part of
   the property that still applies: each element pulled at most once, in order, and displayed as a
@@ -48,15 +70,21 @@ class Runaway(Exception):
     pass
 
 
+class Exhausted(StopIteration):
+    pass
+
+
 class Counter:
     """iterator 1, 2, 3, ... (n = None: unbounded) that logs its pulls"""
 
-    def __init__(self, n):
+    def __init__(self, n, stop=None):
         self.n = n
         self.log = []
         self.i = 0
         self.stops = 0
         self.ran_away = False
+        self.stop = stop       # None | 'value' | 'subclass': how the end is signalled
+        self.out = None        # the produced objects, when make_seq decorates the numbers
 
     def __iter__(self):
         return self
@@ -64,6 +92,10 @@ class Counter:
     def __next__(self):
         if self.n is not None and self.i >= self.n:
             self.stops += 1
+            if self.stop == 'value':
+                raise StopIteration(None)
+            if self.stop == 'subclass':
+                raise Exhausted('no more rows')
             raise StopIteration
         if self.i >= RUNAWAY:
             self.ran_away = True
@@ -89,8 +121,9 @@ ITEMS = {
     'pair': lambda i: (i * 10, i),       # (key, value): sequence-key / sequence-item
     'dict': lambda i: {'v': i},          # with the `mapping` option
     'obj': Obj,
+    'str': lambda i: 's%d' % i,          # strings are not pushed on the namespace
 }
-ATTR = {'int': 'real', 'pair': 'real', 'dict': 'v', 'obj': 'v'}
+ATTR = {'int': 'real', 'pair': 'real', 'dict': 'v', 'obj': 'v', 'str': 'real'}
 
 
 def unitem(x):
@@ -100,7 +133,102 @@ def unitem(x):
         return x.v
     if isinstance(x, tuple):
         return x[1]
+    if isinstance(x, str):
+        return int(x[1:])
     return x
+
+
+# ----------------------------------------------------------------------------
+# holes: element values that are easy to mistake for "no element" / "end of the sequence"
+
+class AlwaysEq:
+    """equal to everything: a careless `== sentinel` takes it for the sentinel"""
+
+    def __eq__(self, other):
+        return True
+
+    def __ne__(self, other):
+        return False
+
+    __hash__ = object.__hash__
+
+
+class NoTruth:
+    """numpy-array style: asking for the truth value is an error"""
+
+    def __bool__(self):
+        raise ValueError('the truth value of this element is ambiguous')
+
+
+class Falsy:
+    def __bool__(self):
+        return False
+
+
+class Empty:
+    def __len__(self):
+        return 0
+
+
+SPECIALS = {
+    'None': None, '0': 0, 'False': False, "''": '', '0.0': 0.0, '()': (), '[]': [], '{}': {}, "b''": b'',
+    '-1': -1, 'nan': float('nan'), 'StopIteration': StopIteration, 'StopIteration()': StopIteration(),
+    'IndexError()': IndexError(7), 'KeyError()': KeyError('k'), 'NotImplemented': NotImplemented,
+    'Ellipsis': Ellipsis, 'AlwaysEq': AlwaysEq(), 'NoTruth': NoTruth(), 'Falsy': Falsy(), 'Empty': Empty(),
+}
+SPECIAL_NAMES = sorted(SPECIALS)
+
+
+def hole_at(holes, i):
+    """is position i (1-based) of the produced sequence a hole?  holes = [value name, placement, as
+    pair value]; placement = ['all'] | ['at', [i, ...]] | ['mod', m, r] | ['upto', k] | ['from', k]"""
+    if not holes:
+        return False
+    pl = holes[1]
+    if pl[0] == 'all':
+        return True
+    if pl[0] == 'at':
+        return i in pl[1]
+    if pl[0] == 'mod':
+        return i % pl[1] == pl[2]
+    if pl[0] == 'upto':
+        return i <= pl[1]
+    return i >= pl[1]
+
+
+def producer(item, holes):
+    """position -> produced element"""
+    base = ITEMS[item]
+    if not holes:
+        return base
+    sp = SPECIALS[holes[0]]
+    as_value = bool(holes[2]) and item == 'pair'
+
+    def wrap(i):
+        if hole_at(holes, i):
+            return (i * 10, sp) if as_value else sp
+        return base(i)
+    return wrap
+
+
+def draw_holes(r, item='int', reach=16):
+    if item == 'dict':
+        name = '{}'            # what is pushed with `mapping` has to be a mapping
+    else:
+        name = r.choice(SPECIAL_NAMES + ['None', 'None', '0', "''", 'StopIteration()'])
+    c = r.random()
+    if c < 0.15:
+        pl = ['all']
+    elif c < 0.55:
+        pl = ['at', sorted(set(r.randint(1, max(3, reach)) for _ in range(r.randint(1, 3))))]
+    elif c < 0.75:
+        m = r.randint(2, 4)
+        pl = ['mod', m, r.randrange(m)]
+    elif c < 0.88:
+        pl = ['upto', r.randint(1, max(2, reach - 1))]
+    else:
+        pl = ['from', r.randint(1, max(2, reach))]
+    return [name, pl, r.random() < 0.5]
 
 
 KINDS = ('iter', 'gen', 'sfi', 'iterable')
@@ -135,17 +263,21 @@ class LazySeq:
         return len(self._data)
 
 
-def make_seq(c, kind, item):
-    wrap = ITEMS[item]
-    if item == 'int':
+def make_seq(c, kind, item, holes=None):
+    wrap = producer(item, holes)
+    if item == 'int' and not holes:
         src = c
     else:
+        c.out = []
+
         class Items:
             def __iter__(self):
                 return self
 
             def __next__(self):
-                return wrap(next(c))
+                v = wrap(next(c))
+                c.out.append(v)
+                return v
         src = Items()
     if kind == 'iter':
         return src
@@ -181,7 +313,7 @@ def make_seq(c, kind, item):
                     raise IndexError(i)
         return GetItemOnly()
     if kind == 'map':
-        return map(wrap, c)
+        return map(wrap, c) if src is c else map(lambda x: x, src)
     from DocumentTemplate.DT_Util import SequenceFromIter
     return SequenceFromIter(src)
 
@@ -198,6 +330,8 @@ DECO0 = {
     'vars': [],          # sequence variables evaluated in the body
     'shared': False,     # compiled template taken from / left in the per-run cache
     'guard': False,      # template class with an item/attribute guard (pass-through)
+    'holes': None,       # [special value name, placement, as pair value]: see hole_at
+    'stop': None,        # how a bounded producer ends: None (StopIteration) | 'value' | 'subclass'
 }
 
 REV_FALSE = [['flip', 0], ['flip', False], ['flip', ''], ['flip', None], ['flip', []], ['flip', 0.0],
@@ -343,20 +477,40 @@ def observe(n, params, kind='iter', deco=None):
     d = full(deco)
     kw = {}
     src, batched = source(params, deco, kw)
-    c = Counter(n)
-    seq = make_seq(c, kind, d['item'])
+    c = Counter(n, d['stop'])
+    holes = d['holes']
+    sp = SPECIALS[holes[0]] if holes else None
+    seq = make_seq(c, kind, d['item'], holes)
     if d['form'] in ('exprcall', 'namecall'):
         kw['mk'] = lambda: seq
     else:
         kw['seq'] = seq
     names = [v.replace('@', ATTR[d['item']]) for v in d['vars']]
     rows = []
+    item_bad = []
 
     def rec(md):
         try:
-            it = unitem(md.getitem('sequence-item', 0))
+            raw = md.getitem('sequence-item', 0)
         except KeyError:
             it = None          # the previous / next forms have no current element
+        else:
+            if not holes:
+                it = unitem(raw)
+            else:
+                # a hole says nothing about its position: take the index the tag announces, and require
+                # that what is shown there is the very object that was produced at that position
+                idx = md.getitem('sequence-index', 0)
+                it = idx + 1
+                if hole_at(holes, it):
+                    same = raw is sp
+                else:
+                    try:
+                        same = unitem(raw) == it
+                    except Exception:  # noqa
+                        same = False
+                if not same:
+                    item_bad.append((idx, repr(raw)[:40]))
         sz = md.getitem('sequence-step-size', 0) if batched else None
         for v in names:
             try:
@@ -384,7 +538,7 @@ def observe(n, params, kind='iter', deco=None):
     return {'src': src, 'empty': out == 'EMPTY', 'items': [r[0] for r in rows],
             'sz': rows[0][1] if rows else None, 'pulled': len(c.log),
             'log_ok': c.log == list(range(1, len(c.log) + 1)),
-            'pulled_during': [r[2] for r in rows]}
+            'pulled_during': [r[2] for r in rows], 'item_bad': item_bad[:5]}
 
 
 def oracle(n, params, obs, batched, deco=None):
@@ -400,6 +554,10 @@ def oracle(n, params, obs, batched, deco=None):
         return ['render raised %s' % obs['exc']], False
     if not obs['log_ok']:
         bad.append('pull order not sequential / an element pulled twice')
+    if obs.get('item_bad'):
+        bad.append('the element shown at an index is not the element produced at that position: %s'
+                   % (obs['item_bad'],))
+        return bad, False
     if n == 0:
         if not obs['empty']:
             bad.append('empty iterator did not render else')
@@ -525,6 +683,87 @@ def tame(d, n, p):
     return d
 
 
+def draw_plain(r):
+    """batch parameters of a plain window (see plain_window)"""
+    p = {k: ABSENT for k in ('start', 'end', 'size', 'orphan', 'overlap')}
+    if r.random() < 0.75:
+        p['start'] = r.randint(1, 12)
+    if p['start'] is not ABSENT and r.random() < 0.3:
+        p['end'] = p['start'] + r.randint(0, 5)
+        if r.random() < 0.3:
+            p['size'] = 0
+    else:
+        p['size'] = r.randint(1, 6)
+    if r.random() < 0.6:
+        p['orphan'] = r.randint(0, 3)
+    if r.random() < 0.6:
+        p['overlap'] = r.randint(0, 2)
+    return p
+
+
+def with_holes(r, d, n, p):
+    """element values on top of a decoration: holes (see hole_at) and / or str elements.  Requests that
+    reorder the sequence are dropped: the position of a hole is read from the index the tag announces."""
+    d = dict(d)
+    d.pop('sort', None)
+    d.pop('reverse', None)
+    if d.get('rev') and rev_truth(d['rev']):
+        d['rev'] = r.choice(REV_FALSE)
+    pw = plain_window(n, p) if p else None
+    reach = pw[1] + pw[2] + eff(p, 'orphan') + 2 if pw else 16
+    if n is not None and r.random() < 0.4:
+        d['stop'] = r.choice(['value', 'subclass'])
+    if 'item' not in d and r.random() < 0.2:
+        d['item'] = 'str'
+        if r.random() < 0.4:
+            return d
+    d['holes'] = draw_holes(r, d.get('item', 'int'), reach)
+    return d
+
+
+HOLE_KINDS = KINDS + MORE_KINDS + ('sfi', 'iter', 'gen')
+
+
+def hole_cases(r, tier):
+    """the three case families of deco_cases once more, with element values of every kind"""
+    quick = tier == 'quick'
+    out = []
+
+    def deco(batched, n, p):
+        if r.random() < 0.4:
+            d = {}
+        else:
+            d = draw_deco(r, batched, batched and plain_window(n, p) is not None, n is not None)
+            if batched:
+                d = tame(d, n, p)
+        return with_holes(r, d, n, p)
+    keep = 0.06 if quick else 0.02
+    for L, p in param_space('quick' if quick else 'thorough', r):
+        if r.random() > keep:
+            continue
+        n = L
+        c = r.random()
+        if c < 0.3:
+            n = None
+        elif c < 0.4:
+            n = 40
+        d = deco(True, n, p)
+        if needs_whole(d) and n is None:
+            continue
+        out.append((n, p, r.choice(HOLE_KINDS), True, d))
+    for _ in range(3000 if quick else 30000):
+        p = draw_plain(r)
+        n = r.choice([None, None, 40, 333])
+        d = deco(True, n, p)
+        if needs_whole(d) and n is None:
+            continue
+        out.append((n, p, r.choice(HOLE_KINDS), True, d))
+    for _ in range(400 if quick else 4000):
+        n = r.choice([0, 1, 2, 3, 5, 8, 14, 40])
+        out.append((n, {}, r.choice(HOLE_KINDS), False, deco(False, n, {})))
+    return out
+
+
 def deco_cases(r, tier):
     quick = tier == 'quick'
     out = []
@@ -545,19 +784,7 @@ def deco_cases(r, tier):
         out.append((n, p, r.choice(KINDS + MORE_KINDS), True, d))
     # (b) plain windows (what a batched listing page uses): window and size known from the attributes
     for _ in range(5000 if quick else 40000):
-        p = {k: ABSENT for k in ('start', 'end', 'size', 'orphan', 'overlap')}
-        if r.random() < 0.75:
-            p['start'] = r.randint(1, 12)
-        if p['start'] is not ABSENT and r.random() < 0.3:
-            p['end'] = p['start'] + r.randint(0, 5)
-            if r.random() < 0.3:
-                p['size'] = 0
-        else:
-            p['size'] = r.randint(1, 6)
-        if r.random() < 0.6:
-            p['orphan'] = r.randint(0, 3)
-        if r.random() < 0.6:
-            p['overlap'] = r.randint(0, 2)
+        p = draw_plain(r)
         n = r.choice([None, None, 40, 333])
         d = tame(draw_deco(r, True, True, n is not None), n, p)
         if needs_whole(d) and n is None:
@@ -598,7 +825,230 @@ def deco_key(d):
         ks.append('guarded')
     if d['shared']:
         ks.append('shared_template')
+    if d['stop']:
+        ks.append('stop=' + d['stop'])
+    if d['holes']:
+        ks += ['holes', 'holes=' + d['holes'][0], 'holes@' + d['holes'][1][0]]
+        if d['holes'][2] and d['item'] == 'pair':
+            ks.append('holes_as_pair_value')
     return ks
+
+# ----------------------------------------------------------------------------
+# the lazy subscription wrapper itself: access histories against a plain reference
+
+STOPS = (None, 'value', 'subclass')
+WRAP_KINDS = ('iter', 'gen', 'iterable', 'map', 'sfi')
+
+
+def wrapper_case(r):
+    n = r.choice([None, None, 0, 1, 2, 3, 5, 8, 13])
+    item = r.choice(['int', 'int', 'pair', 'obj', 'str'])
+    top = (12 if n is None else n) + 2
+    holes = draw_holes(r, item, top) if r.random() < 0.8 else None
+    ops = []
+    for _ in range(r.randint(1, 10)):
+        if n is not None and r.random() < 0.12:
+            ops.append(['len'])
+        else:
+            ops.append(['get', r.randint(0, top)])
+    return {'family': 'wrapper', 'n': n, 'kind': r.choice(WRAP_KINDS), 'item': item, 'holes': holes,
+            'stop': r.choice(STOPS), 'ops': ops}
+
+
+def wrapper_cases_exhaustive():
+    """every special value at every single position (and everywhere) x every index asked first"""
+    for name in SPECIAL_NAMES:
+        for n in (None, 4):
+            for pl in [['all']] + [['at', [k]] for k in range(1, 6)]:
+                for i in range(0, 6):
+                    for kind in ('iter', 'sfi'):
+                        yield {'family': 'wrapper', 'n': n, 'kind': kind, 'item': 'int', 'holes': [name, pl, False],
+                               'stop': None, 'ops': [['get', i], ['get', 0], ['get', i + 1]] +
+                               ([['len']] if n is not None else [])}
+
+
+def run_wrapper(case):
+    """failures of one access history.  Reference: a lazily subscripted sequence over a producer of n
+    elements: seq[i] is the (i+1)-th produced object when there is one, IndexError otherwise; after it
+    exactly max(already pulled, min(i + 1, n)) elements are pulled; len(seq) is n and pulls the rest."""
+    from DocumentTemplate.DT_Util import sequence_ensure_subscription
+    n, item, holes = case['n'], case['item'], case['holes']
+    c = Counter(n, case['stop'])
+    raw = make_seq(c, case['kind'], item, holes)
+    seq = raw if case['kind'] == 'sfi' else sequence_ensure_subscription(raw)
+    want = producer(item, holes)
+    pulled = 0
+    bad = []
+    for k, op in enumerate(case['ops']):
+        try:
+            got = ('len', len(seq)) if op[0] == 'len' else ('item', seq[op[1]])
+        except IndexError:
+            got = ('IndexError',)
+        except Exception as e:  # noqa
+            got = ('raised', type(e).__name__ + ': ' + str(e)[:60])
+        if op[0] == 'len':
+            exp, pulled = ('len', n), n
+        elif n is None or op[1] < n:
+            exp, pulled = ('item', want(op[1] + 1)), max(pulled, op[1] + 1)
+        else:
+            exp, pulled = ('IndexError',), n
+        if exp[0] == 'item' and got[0] == 'item':
+            i = op[1]
+            if c.out is not None:
+                ok = len(c.out) > i and got[1] is c.out[i]
+            else:
+                ok = got[1] == exp[1]
+        else:
+            ok = got == exp
+        where = 'step %d %s' % (k, 'len(seq)' if op[0] == 'len' else 'seq[%d]' % op[1])
+        if not ok:
+            bad.append('lazy wrapper, %s: got %s, the producer (n=%s) says %s' % (
+                where, repr(got)[:60], n, repr(exp)[:60]))
+            break
+        if c.log != list(range(1, len(c.log) + 1)):
+            bad.append('lazy wrapper, %s: pull order not sequential' % where)
+            break
+        if len(c.log) != pulled:
+            bad.append('lazy wrapper, %s: %d elements pulled, needed are %d' % (where, len(c.log), pulled))
+            break
+    return bad
+
+
+# ----------------------------------------------------------------------------
+# several loops in one rendering
+
+def battr_text(p):
+    return ' '.join('%s=%d' % (k, p[k]) for k in ('start', 'end', 'size', 'orphan', 'overlap')
+                    if p.get(k) is not ABSENT)
+
+
+def multi_case(r):
+    form = r.choice(['sequential', 'nested', 'same'])
+    loops = []
+    for j in range(2):
+        n = r.choice([None, None, 60])
+        p = draw_plain(r)
+        holes = None
+        if r.random() < 0.5:
+            pw = plain_window(n, p)
+            holes = draw_holes(r, 'int', pw[1] + pw[2] + eff(p, 'orphan') + 2)
+        loops.append({'n': n, 'params': p, 'kind': r.choice(KINDS), 'holes': holes,
+                      'ref': r.choice(['name', 'expr'] if form != 'nested' or j == 0 else ['namecall', 'exprcall'])})
+    if form == 'same':
+        loops[0]['ref'] = loops[1]['ref'] = 'name'     # the documented way to name one sequence twice
+        loops[1]['n'], loops[1]['kind'], loops[1]['holes'] = loops[0]['n'], loops[0]['kind'], loops[0]['holes']
+    return {'family': 'multi', 'form': form, 'loops': loops, 'shared': r.random() < 0.5}
+
+
+def multi_source(case):
+    a, b = case['loops']
+    names = ('a', 'a') if case['form'] == 'same' else ('a', 'b')
+    tags = []
+    for j, lp in enumerate((a, b)):
+        ref = {'name': names[j], 'expr': 'expr="%s"' % names[j], 'namecall': 'mk', 'exprcall': 'expr="mk()"'}[lp['ref']]
+        tags.append('<dtml-in %s %s><dtml-call "rec(_, %d)">' % (ref, battr_text(lp['params']), j))
+    if case['form'] == 'sequential':
+        return tags[0] + '</dtml-in>|' + tags[1] + '</dtml-in>'
+    return tags[0] + tags[1] + '</dtml-in></dtml-in>'
+
+
+def run_multi(case):
+    """(failures, pull counts per loop: [[outer], [inner, ...]], source)"""
+    a, b = case['loops']
+    form = case['form']
+    src = multi_source(case)
+    counters = [[], []]
+    rows = {}
+
+    def fresh(j):
+        lp = case['loops'][j]
+        c = Counter(lp['n'])
+        counters[j].append(c)
+        rows[id(c)] = []
+        return make_seq(c, lp['kind'], 'int', lp['holes'])
+    kw = {'a': fresh(0)}
+    if form == 'sequential':
+        kw['b'] = fresh(1)
+    elif form == 'nested':
+        kw['mk'] = lambda: fresh(1)
+    else:
+        counters[1].append(counters[0][0])
+    item_bad = []
+    outer_rows, inner_rows = [], []
+
+    def rec(md, j):
+        holes = case['loops'][j]['holes']
+        raw = md.getitem('sequence-item', 0)
+        if not holes:
+            it = raw
+        else:
+            it = md.getitem('sequence-index', 0) + 1
+            if not (raw is SPECIALS[holes[0]] if hole_at(holes, it) else raw == it):
+                item_bad.append((j, it - 1, repr(raw)[:40]))
+        if form != 'same':
+            rows[id(counters[j][-1])].append(it)
+        elif j == 0:
+            outer_rows.append(it)
+            inner_rows.append([])
+        else:
+            inner_rows[-1].append(it)
+        return ''
+    bad = []
+    try:
+        template(src, False, case['shared'])(rec=rec, **kw)
+    except Runaway as e:
+        bad.append('several loops: rendering did not stop pulling: %s' % e)
+    except Exception as e:  # noqa
+        bad.append('several loops: render raised %s: %s' % (type(e).__name__, str(e)[:80]))
+    pulls = [[len(c.log) for c in cs] for cs in counters]
+    if bad:
+        return bad, pulls, src
+    if item_bad:
+        return ['several loops: the element shown at an index is not the element produced at that position: %s'
+                % (item_bad[:3],)], pulls, src
+    wins = [plain_window(lp['n'], lp['params']) for lp in (a, b)]
+    bounds = [w[1] + w[2] + eff(lp['params'], 'orphan') for w, lp in zip(wins, (a, b))]
+    shown = [list(range(w[0], w[1] + 1)) for w in wins]
+    for j in (0, 1):
+        for c in counters[j]:
+            if c.log != list(range(1, len(c.log) + 1)):
+                bad.append('several loops: loop %d: pull order not sequential / an element pulled twice' % j)
+    if form == 'same':
+        c = counters[0][0]
+        if outer_rows != shown[0]:
+            bad.append('several loops: outer loop displayed %s, the attributes say %d..%d' % (
+                outer_rows[:10], wins[0][0], wins[0][1]))
+        for got in inner_rows:
+            if got != shown[1]:
+                bad.append('several loops: inner loop over the same sequence displayed %s, the attributes say %d..%d'
+                           % (got[:10], wins[1][0], wins[1][1]))
+                break
+        if len(c.log) > max(bounds):
+            bad.append('several loops: two windows over one sequence pulled %d elements > the larger of the two '
+                       'bounds end+size+orphan: %d, %d' % (len(c.log), bounds[0], bounds[1]))
+        return bad, pulls, src
+    want_n = [1, 1 if form == 'sequential' else len(shown[0])]
+    for j in (0, 1):
+        if len(counters[j]) != want_n[j]:
+            bad.append('several loops: loop %d rendered over %d sequences, expected %d' % (
+                j, len(counters[j]), want_n[j]))
+        for c in counters[j]:
+            if rows[id(c)] != shown[j]:
+                bad.append('several loops: loop %d displayed %s, the attributes say %d..%d' % (
+                    j, rows[id(c)][:10], wins[j][0], wins[j][1]))
+                break
+        for c in counters[j]:
+            if len(c.log) > bounds[j]:
+                bad.append('several loops: loop %d pulled %d elements > end(%d)+size(%d)+orphan(%d)' % (
+                    j, len(c.log), wins[j][1], wins[j][2], eff(case['loops'][j]['params'], 'orphan')))
+                break
+    return bad, pulls, src
+
+
+def lazy_req(n, p, batched=True):
+    return {'op': 'lazy', 'start': eff(p, 'start'), 'end': eff(p, 'end'), 'size': eff(p, 'size'),
+            'orphan': eff(p, 'orphan'), 'overlap': eff(p, 'overlap'), 'n': -1 if n is None else n,
+            'batched': batched}
 
 
 def run(res, tier, have_driver):
@@ -615,7 +1065,18 @@ def run(res, tier, have_driver):
                 'and step variables, sequence-query; lazy kinds lazyseq (__getitem__ + forcing __len__), '
                 '__getitem__-only, map; compiled templates shared between cases.  Window and size of plain '
                 'cases are computed from the attributes.  non-trivial = batched case on an iterator longer '
-                'than the displayed window (something is left unpulled or looked ahead)')
+                'than the displayed window (something is left unpulled or looked ahead).  Element values: the '
+                'decorated families once more with holes (None, 0, False, empty str / bytes / tuple / list / dict, '
+                '-1, nan, StopIteration class and instance, IndexError / KeyError instances, NotImplemented, '
+                'Ellipsis, equal-to-everything, no-truth-value, false and zero-length objects; everywhere / at single '
+                'positions / every m-th / prefix / tail; bare or as pair value) and str elements: same bound, same '
+                'model pull count, the element shown at index k is the object produced k-th.  Lazy wrapper: random '
+                'seq[i] / len histories on sequence_ensure_subscription(iterator / generator / iterable / map) and '
+                'SequenceFromIter over producers with holes, ended by StopIteration / StopIteration(value) / a '
+                'subclass / generator return, against a plain reference (value identity, IndexError, exact pull '
+                'count).  Several loops in one rendering: two batched loops in a row, nested over a fresh lazy '
+                'sequence per outer element, nested over the same sequence (bound = the larger one); per-loop '
+                'pull counts compared with the model')
     cases = []
     for L, p in param_space('quick' if tier == 'quick' else 'thorough', r):
         if tier == 'thorough' and r.random() > 0.25:
@@ -631,6 +1092,8 @@ def run(res, tier, have_driver):
             cases.append((n, {}, kind, False, None))
     n_bare = len(cases)
     cases += deco_cases(common.rng('C12-deco'), tier)
+    n_deco = len(cases)
+    cases += hole_cases(common.rng('C12-holes'), tier)
     reqs, req_of, obss = [], [], []
     for (n, p, kind, batched, deco) in cases:
         obs = observe(n, p, kind, deco)
@@ -665,14 +1128,61 @@ def run(res, tier, have_driver):
         # the model knows the bare loop; decorations that leave the pulls alone are compared with it too
         if not whole and mode == 'loop':
             req_of.append(len(obss) - 1)
-            reqs.append({'op': 'lazy', 'start': eff(p, 'start'), 'end': eff(p, 'end'), 'size': eff(p, 'size'),
-                         'orphan': eff(p, 'orphan'), 'overlap': eff(p, 'overlap'),
-                         'n': -1 if n is None else n, 'batched': batched})
-    for i in (0, n_bare // 3, n_bare // 2, n_bare - 1, n_bare + 1, len(cases) - 700):
+            reqs.append(lazy_req(n, p, batched))
+    # the wrapper itself; several loops in one rendering
+    rw = common.rng('C12-wrapper')
+    wcases = [wrapper_case(rw) for _ in range(2500 if tier == 'quick' else 40000)]
+    wcases += [w for w in wrapper_cases_exhaustive() if tier != 'quick' or rw.random() < 0.25]
+    for w in wcases:
+        res.evaluations += 1
+        res.count('wrapper_history')
+        res.count('wrapper:' + w['kind'])
+        if w['holes']:
+            res.count('wrapper:holes=' + w['holes'][0])
+        if w['stop']:
+            res.count('wrapper:stop=' + w['stop'])
+        if any(op[0] == 'get' and (w['n'] is None or op[1] < w['n']) for op in w['ops']):
+            res.nt(('wrapper', json.dumps(w, sort_keys=True)))
+        for f in run_wrapper(w):
+            res.oracle_fail.append({'case': w, 'what': f})
+    rm = common.rng('C12-multi')
+    multi = []
+    for _ in range(900 if tier == 'quick' else 12000):
+        mc = multi_case(rm)
+        bad, pulls, src = run_multi(mc)
+        res.evaluations += 1
+        res.count('several_loops')
+        res.count('several_loops:' + mc['form'])
+        res.nt(('multi', json.dumps(mc, sort_keys=True)))
+        for f in bad:
+            res.oracle_fail.append({'case': dict(mc, src=src), 'what': f})
+        if not bad:
+            multi.append((mc, pulls))
+            for lp in mc['loops']:
+                reqs.append(lazy_req(lp['n'], lp['params']))
+    for i in (0, n_bare // 3, n_bare // 2, n_bare - 1, n_bare + 1, n_deco - 700, n_deco + 1, len(cases) - 1):
         res.sample({'n': cases[i][0], 'params': cases[i][1], 'kind': cases[i][2], 'deco': cases[i][4],
                     'observation': obss[i]})
     if have_driver:
         resp = common.run_driver(reqs)
+        # several loops: every sequence is pulled as far as the model pulls for its window alone; two windows
+        # over one (long enough) sequence: as far as the larger of the two
+        for k, (mc, pulls) in enumerate(multi):
+            ra, rb = resp[len(req_of) + 2 * k], resp[len(req_of) + 2 * k + 1]
+            if 'ok' not in ra or 'ok' not in rb:
+                res.harness_errors.append('driver: %r %r' % (ra, rb))
+                break
+            ma, mb = ra['ok']['pulled'], rb['ok']['pulled']
+            res.corr_checked += 1
+            if mc['form'] == 'same':
+                d = None if pulls[0] == [max(ma, mb)] else 'pulled: impl %s model max(%d, %d)' % (pulls[0], ma, mb)
+            elif pulls[0] != [ma] or any(x != mb for x in pulls[1]):
+                d = 'pulled: impl %s model %d / %d' % (pulls, ma, mb)
+            else:
+                d = None
+            if d:
+                res.corr_mismatch.append({'case': mc, 'impl': {'pulled': pulls}, 'model': [ra['ok'], rb['ok']],
+                                          'diff': d})
         for i, rp in zip(req_of, resp):
             (n, p, kind, batched, deco), obs = cases[i], obss[i]
             if 'ok' not in rp:
@@ -700,7 +1210,9 @@ def run(res, tier, have_driver):
     res.assumptions += ['iterator protocol / SequenceFromIter modelled by LazySt; the model is the bare loop: '
                         'decorated cases whose options must not change the pulls are compared with the same '
                         'model run; previous / next forms and the excepted requests (sort / reverse / length / '
-                        'next-batches / statistics) are oracle-only']
+                        'next-batches / statistics) are oracle-only; the model does not look at element values: '
+                        'cases with holes are compared with the run for ordinary elements; access histories on the '
+                        'wrapper are oracle-only (reference in plain Python)']
 
 
 def search_more(res, tier):
@@ -713,12 +1225,20 @@ def search_more(res, tier):
         deco = None
         if r.random() < 0.5:
             deco = tame(draw_deco(r, True, plain_window(n, p) is not None, False), n, p)
+        if r.random() < 0.4:
+            deco = with_holes(r, deco or {}, n, p)
         obs = observe(n, p, 'iter', deco)
         bad, known = oracle(n, p, obs, True, deco)
         for f in bad:
             found.append({'case': {'n': n, 'params': p, 'deco': deco, 'src': obs.get('src')}, 'what': f})
         if len(found) > 5:
             break
+    for _ in range(20000):
+        if len(found) > 5:
+            break
+        w = wrapper_case(r)
+        for f in run_wrapper(w):
+            found.append({'case': w, 'what': f})
     return found
 
 
@@ -726,6 +1246,15 @@ def replay(path):
     with open(path) as f:
         d = json.load(f)
     c = d['first']['case']
+    if c.get('family') == 'wrapper':
+        bad = run_wrapper(c)
+        print(bad)
+        return 1 if bad else 0
+    if c.get('family') == 'multi':
+        bad, pulls, src = run_multi(c)
+        print(src, pulls)
+        print(bad)
+        return 1 if bad else 0
     obs = observe(c['n'], c['params'], c.get('kind', 'iter'), c.get('deco'))
     bad, known = oracle(c['n'], c['params'], obs, c.get('batched', True), c.get('deco'))
     print(obs)
